@@ -323,7 +323,9 @@ def _task12(arg):
         cnt['patterns'] += 1
         cnt['texts'] += len(texts)
         bad = set()
-        for t in texts:
+        pc = build(expr)
+        pc.compile()
+        for ti, t in enumerate(texts):
             want, ms = model12(cre, t)
             for (meth, ie, rel), w in want.items():
                 if (meth, ie, rel) in bad:
@@ -332,7 +334,10 @@ def _task12(arg):
                 if rel is not None:
                     kw['relative_to_match'] = rel
                 got = getattr(p, meth)(t, **kw)
-                it = list(getattr(p, meth.replace('get_', 'iterate_'))(t, **kw))
+                it = list(getattr(pc if ti % 2 else p, meth.replace('get_', 'iterate_'))(t, **kw))
+                if ti % 3 == 0 and getattr(pc, meth)(t, **kw) != got:
+                    it = 'compiled instance disagrees'
+                    cnt['observations'] += 1
                 cnt['observations'] += 2
                 why = None
                 if got != w:
@@ -353,7 +358,10 @@ def _task12(arg):
                     bad.add((meth, ie, rel))
                     argsrc = ', '.join('%s=%r' % kv for kv in kw.items())
                     viol.append(V('C12|%s|%s|%s|%s' % (expr, meth, ie, rel), f"{expr}: {why}",
-                                  'p = %s\nwant = %r\nassert p.%s(%r, %s) == want' % (expr, w, meth, t, argsrc)))
+                                  'p = %s\nwant = %r\nassert p.%s(%r, %s) == want\nassert list(p.%s(%r, %s)) == want\n'
+                                  'p.compile()\nassert p.%s(%r, %s) == want\nassert list(p.%s(%r, %s)) == want'
+                                  % (expr, w, meth, t, argsrc, meth.replace('get_', 'iterate_'), t, argsrc,
+                                     meth, t, argsrc, meth.replace('get_', 'iterate_'), t, argsrc)))
     return viol, cnt
 
 
@@ -404,7 +412,11 @@ def _task13(arg):
         cnt['patterns'] += 1
         flat = expr in FLAT_LAYOUTS
         bad = set()
-        for t in universe(extra, L):
+        p_plain, p_comp = p, build(expr)
+        p_comp.compile()
+        for ti, t in enumerate(universe(extra, L)):
+            p = p_comp if ti % 2 else p_plain       # every other text goes to the compiled instance
+            setup = 'p = ' + expr + ('\np.compile()' if p is p_comp else '')
             ms = list(cre.finditer(t))
             # split_by_match
             if 'sbm' not in bad:
@@ -416,8 +428,8 @@ def _task13(arg):
                     bad.add('sbm')
                     viol.append(V('C13|%s|split_by_match' % expr,
                                   f"{expr}: split_by_match({t!r}) = {pieces!r} does not rebuild the source with the {len(ms)} matches",
-                                  'import re\np = %s\nt = %r\nms = [m.group(0) for m in re.finditer(str(p), t, 24)]\nps = p.split_by_match(t)\n'
-                                  "assert len(ps) == len(ms) + 1 and ''.join(a + b for a, b in zip(ps, ms)) + ps[-1] == t" % (expr, t)))
+                                  'import re\n%s\nt = %r\nms = [m.group(0) for m in re.finditer(str(p), t, 24)]\nps = p.split_by_match(t)\n'
+                                  "assert len(ps) == len(ms) + 1 and ''.join(a + b for a, b in zip(ps, ms)) + ps[-1] == t" % (setup, t)))
             # replace
             for count in (0, 1, 2, 3, 10):
                 for repl in ('', 'X', 'ab', '-'):
@@ -436,12 +448,12 @@ def _task13(arg):
                         bad.add(('rep', count))
                         viol.append(V('C13|%s|replace|%d' % (expr, count),
                                       f"{expr}: replace({t!r}, {repl!r}, {count}) = {got!r}, expected {want!r}",
-                                      'p = %s\nassert p.replace(%r, %r, %d) == %r' % (expr, t, repl, count, want)))
+                                      '%s\nassert p.replace(%r, %r, %d) == %r' % (setup, t, repl, count, want)))
                     if count == 0 and 'join' not in bad and got != repl.join(p.split_by_match(t)):
                         bad.add('join')
                         viol.append(V('C13|%s|replace-vs-split' % expr,
                                       f"{expr}: replace({t!r}, {repl!r}) differs from joining the split pieces",
-                                      'p = %s\nassert p.replace(%r, %r) == %r.join(p.split_by_match(%r))' % (expr, t, repl, repl, t)))
+                                      '%s\nassert p.replace(%r, %r) == %r.join(p.split_by_match(%r))' % (setup, t, repl, repl, t)))
             # split_by_capture on non-nesting layouts
             if flat:
                 for ie in (True, False):
@@ -462,10 +474,10 @@ def _task13(arg):
                         bad.add(('sbc', ie))
                         viol.append(V('C13|%s|split_by_capture|%s' % (expr, ie),
                                       f"{expr}: split_by_capture({t!r}, {ie}) = {pieces!r} does not rebuild the source with captures {caps!r}",
-                                      'p = %s\nps = p.split_by_capture(%r, %r)\ncaps = %r\n'
+                                      '%s\nps = p.split_by_capture(%r, %r)\ncaps = %r\n'
                                       "assert len(ps) == len(caps) + 1 and ''.join(a + b for a, b in zip(ps, caps)) + ps[-1] == %r"
-                                      % (expr, t, ie, caps, t)))
-        for count in (-1, -5):
+                                      % (setup, t, ie, caps, t)))
+        for count, p in ((-1, p_plain), (-5, p_plain), (-1, p_comp)):
             try:
                 p.replace('a', 'X', count)
                 got = 'returned'
@@ -474,7 +486,7 @@ def _task13(arg):
             cnt['observations'] += 1
             if got != 'InvalidArgumentValueException':
                 viol.append(V('C13|%s|negative-count' % expr, f"{expr}: replace(count={count}) -> {got}",
-                              "p = %s\ntry:\n    p.replace('a', 'X', %d)\nexcept InvalidArgumentValueException:\n    pass\nelse:\n    raise AssertionError" % (expr, count)))
+                              "p = %s\n%stry:\n    p.replace('a', 'X', %d)\nexcept InvalidArgumentValueException:\n    pass\nelse:\n    raise AssertionError" % (expr, 'p.compile()\n' if p is p_comp else '', count)))
     return viol, cnt
 
 
@@ -542,6 +554,8 @@ def _task14(arg):
                 viol.append(V('C14|%s|unbuildable' % expr, f"{expr}: {e!r}", 'import re\nre.compile(str(%s), 24)' % expr))
                 continue
             bad = set()
+            pc = build(expr)
+            pc.compile()
             for i, content in enumerate(contents):
                 path = os.path.join(td, 'f%d.txt' % i)
                 if content == '@PATH@':
@@ -555,7 +569,7 @@ def _task14(arg):
                         continue
                     cnt['observations'] += 2
                     try:
-                        a = _call(p, meth, path, kw, True)
+                        a = _call(pc if i % 2 else p, meth, path, kw, True)
                     except Exception as e:  # noqa: BLE001
                         a = 'raised ' + type(e).__name__
                     b = _call(p, meth, text, kw, False)
@@ -565,9 +579,10 @@ def _task14(arg):
                                       f"{expr}: {meth}(path, is_path=True) = {a!r} but on the content {text!r} it is {b!r}",
                                       "import tempfile, os\np = %s\nd = tempfile.mkdtemp()\nf = os.path.join(d, 'f.txt')\n"
                                       "open(f, 'w', encoding='utf-8').write(%r)\nkw = %r\n"
-                                      "a = p.%s(f, is_path=True, **kw)\nb = p.%s(%r, **kw)\n"
-                                      "assert (list(a) if not isinstance(a, (str, bool, list)) else a) == (list(b) if not isinstance(b, (str, bool, list)) else b)"
-                                      % (expr, content, kw, meth, meth, content)))
+                                      "def norm(v):\n    return v if isinstance(v, (str, bool, list)) else list(v)\n"
+                                      "assert norm(p.%s(f, is_path=True, **kw)) == norm(p.%s(%r, **kw))\np.compile()\n"
+                                      "assert norm(p.%s(f, is_path=True, **kw)) == norm(p.%s(%r, **kw))"
+                                      % (expr, content, kw, meth, meth, content, meth, meth, content)))
                 # context windows on the text
                 if 'win' in bad:
                     continue
